@@ -42,19 +42,14 @@ func FlagSearch(fn *ssa.Function, o FlagOpts) ssa.Instruction {
 			}
 		}
 	}
+	conds := branchConds(fn)
 	count := map[ssa.Value]int{}
-	for _, b := range fn.Blocks {
-		if i := BlockIf(b); i != nil {
-			v, _ := Truth(i.Cond, 0)
-			count[v]++
-		}
+	for _, v := range conds {
+		count[v]++
 	}
-	for _, b := range fn.Blocks {
-		if i := BlockIf(b); i != nil {
-			v, _ := Truth(i.Cond, 0)
-			if count[v] >= 2 {
-				add(v)
-			}
+	for _, v := range conds {
+		if count[v] >= 2 {
+			add(v)
 		}
 	}
 	get := func(asg uint32, v ssa.Value) (bool, bool) {
@@ -89,19 +84,20 @@ func FlagSearch(fn *ssa.Function, o FlagOpts) ssa.Instruction {
 		return asg
 	}
 	type state struct {
-		b      *ssa.BasicBlock
+		n      node
 		asg    uint32
 		marked bool
 	}
-	start := state{fn.Blocks[0], 0, o.Mark == nil}
+	start := state{node{fn.Blocks[0], -1}, 0, o.Mark == nil}
 	seen := map[state]bool{start: true}
 	work := []state{start}
-	for len(work) > 0 {
+	var found ssa.Instruction
+	for len(work) > 0 && found == nil {
 		s := work[len(work)-1]
 		work = work[:len(work)-1]
 		marked := s.marked
 		cut := false
-		for _, in := range s.b.Instrs {
+		for _, in := range s.n.b.Instrs {
 			if !marked && o.Mark != nil && o.Mark(in) {
 				marked = true
 				continue
@@ -119,24 +115,33 @@ func FlagSearch(fn *ssa.Function, o FlagOpts) ssa.Instruction {
 		if cut {
 			continue
 		}
-		for i, succ := range s.b.Succs {
-			if o.Removed != nil && o.Removed(s.b, i) {
-				continue
-			}
+		succNodes(s.n, o.Removed, func(i int, next node) {
 			na := s.asg
-			if iff := BlockIf(s.b); iff != nil {
+			if iff := BlockIf(s.n.b); iff != nil {
+				var sc *ssa.Phi
+				if s.n.via >= 0 {
+					if sc = shortCircuit(s.n.b); sc != nil {
+						condOverride[sc] = sc.Edges[s.n.via]
+					}
+				}
 				v, truth := Truth(iff.Cond, i)
+				if sc != nil {
+					delete(condOverride, sc)
+				}
 				if val, known := get(na, v); known && val != truth {
-					continue // contradicts a flag set or tested earlier
+					return // contradicts a flag set or tested earlier
 				}
 				na = set(na, v, true, truth)
 			}
+			succ := next.b
 			// resolve bool phis of succ for this edge (simultaneous assignment)
-			predIdx := -1
-			for k, pb := range succ.Preds {
-				if pb == s.b {
-					predIdx = k
-					break
+			predIdx := next.via
+			if predIdx < 0 {
+				for k, pb := range succ.Preds {
+					if pb == s.n.b {
+						predIdx = k
+						break
+					}
 				}
 			}
 			nb := na
@@ -151,12 +156,12 @@ func FlagSearch(fn *ssa.Function, o FlagOpts) ssa.Instruction {
 				val, known := get(na, phi.Edges[predIdx])
 				nb = set(nb, phi, known, val)
 			}
-			ns := state{succ, nb, marked}
+			ns := state{next, nb, marked}
 			if !seen[ns] {
 				seen[ns] = true
 				work = append(work, ns)
 			}
-		}
+		})
 	}
 	return nil
 }
